@@ -79,8 +79,14 @@ def gen(rng, tier):  # noqa: F811
             tgt = sorted(rng.sample(range(-9, top), n - 1)) + [top] if top - (-9) >= n - 1 else list(range(n))
         elif r < 0.5:
             tgt = list(range(rng.choice([0, 1, 2, -1]), 99))[:n]
-        else:
+        elif r < 0.9:
             tgt = sorted(rng.sample(range(-60, 60), n))
+        else:       # an alphabet spanning more than 2^20 (with and without a negative label)
+            lo = rng.choice([-7, -300000, 0, 5])
+            tgt = sorted(set([lo, lo + 2**20 + rng.randint(1, 10**6)] + [lo + rng.randint(1, 2**20) for _ in range(n)]))[:n]
+            tgt = sorted(set(tgt[:n - 1] + [lo + 2**20 + 12345])) if len(tgt) >= n else sorted(rng.sample(range(-60, 60), n))
+            if len(tgt) != n:
+                tgt = sorted(rng.sample(range(-60, 60), n))
         case['mono2'] = _mono_onto(present, tgt)
         yield case
     for _ in range(G.budget(10) if tier == 'quick' else 200):
@@ -159,6 +165,18 @@ def impl(case):
         lt = mh.LumpedStateTraj([np.array([f[v] for v in t]) for t in trajs], [np.array(t) for t in trajs])
         out['lumped'] = battery(lt, lag, S, F, which=['emm', 'emm_method', 'its'])
         try:
+            # the same object with the flag flipped must answer like a fresh object built with that flag
+            Mm = [np.array([f[v] for v in t]) for t in trajs]
+            ref = mh.LumpedStateTraj(Mm, [np.array(t) for t in trajs], positive=True).estimate_markov_model(lag)[0]
+            lt.positive = True
+            flipped = lt.estimate_markov_model(lag)[0]
+            lt.positive = False
+            back = lt.estimate_markov_model(lag)[0]
+            base0 = mh.LumpedStateTraj(Mm, [np.array(t) for t in trajs]).estimate_markov_model(lag)[0]
+            out['lumped']['flip_ok'] = bool(np.array_equal(flipped, ref) and np.array_equal(back, base0))
+        except Exception as exc:  # noqa
+            out['lumped']['flip_ok'] = None
+        try:
             T, _ = lt.estimate_markov_model(lag)
             ev = mh.msm.utils.linalg.left_eigenvalues(T, nvals=T.shape[0])
             out['lumped']['its_ref'] = [(-lag / np.log(e)).real.hex() if (np.isreal(e) and 0 < e.real < 1) else 'nan' for e in ev[1:]]
@@ -212,6 +230,8 @@ def judge(case, ibc, answers):
         if base['emm_method'] != base['emm']:
             P('impl-vs-spec', 'function and method differ')
         lu = r.get('lumped')
+        if lu and lu.get('flip_ok') is False:
+            P('impl-vs-spec', 'LumpedStateTraj: after flipping `positive` on the object it does not answer like a fresh object with that flag')
         if lu and lu['emm'] != lu['emm_method']:
             P('impl-vs-spec', 'LumpedStateTraj: function API %s and method %s differ' % (C.short(lu['emm'], 120), C.short(lu['emm_method'], 120)))
         if lu and 'err' not in lu['its'] and lu.get('its_ref') not in (None, 'err') and 'err' not in lu['emm_method']:
